@@ -92,8 +92,8 @@ pub fn token_starts(text: &str) -> Vec<usize> {
 
 // ---------------------------------------------------------------- reference text model
 
-/// Independent model of a document's coordinates. Lines are separated by '\n' (the server's and the
-/// C22 reference's line model); `lens[i]` = (chars, utf16 units, bytes) of line i without its '\n'.
+/// Independent model of a document's coordinates. Lines end at "\n", "\r\n" or a lone "\r" (the
+/// protocol's line model); `lens[i]` = (chars, utf16 units, bytes) of line i without its '\n'.
 pub struct TextModel {
     pub starts: Vec<usize>,
     pub lens: Vec<(u32, u32, u32)>,
@@ -103,17 +103,34 @@ pub type Pos = (u32, u32);
 
 impl TextModel {
     pub fn new(text: &str) -> TextModel {
+        // LSP line model: a line ends at "\n", "\r\n" or a lone "\r"
+        let b = text.as_bytes();
         let mut starts = vec![0usize];
-        for (i, b) in text.bytes().enumerate() {
-            if b == b'\n' {
+        let mut ends = Vec::new();
+        let mut i = 0;
+        while i < b.len() {
+            if b[i] == b'\n' {
+                ends.push(i);
+                starts.push(i + 1);
+            } else if b[i] == b'\r' {
+                ends.push(i);
+                if i + 1 < b.len() && b[i + 1] == b'\n' {
+                    i += 1;
+                }
                 starts.push(i + 1);
             }
+            i += 1;
         }
+        ends.push(text.len());
         let mut lens = Vec::new();
         for (i, &s) in starts.iter().enumerate() {
-            let e = if i + 1 < starts.len() { starts[i + 1] - 1 } else { text.len() };
-            let l = &text[s..e];
-            lens.push((l.chars().count() as u32, l.encode_utf16().count() as u32, l.len() as u32));
+            let l = &text[s..ends[i]];
+            // the byte bound includes the line's own terminator: an offset between the "\r" and
+            // the "\n" of a CRLF is a token boundary for the Lua lexer (which pairs "\n\r") and
+            // still addresses a byte of this line; the protocol clamps such a character to the
+            // line length
+            let term = if i + 1 < starts.len() { starts[i + 1] - ends[i] } else { 0 };
+            lens.push((l.chars().count() as u32, l.encode_utf16().count() as u32, (l.len() + term.saturating_sub(1)) as u32));
         }
         TextModel { starts, lens }
     }
@@ -130,7 +147,7 @@ impl TextModel {
         while !text.is_char_boundary(o) {
             o -= 1;
         }
-        (line as u32, text[self.starts[line]..o].chars().count() as u32)
+        (line as u32, text[self.starts[line]..o].encode_utf16().count() as u32)
     }
     /// Is the position inside the document? Weakest reading the statement allows: the line exists
     /// and the character does not exceed the line's length under ANY of the three LSP encodings
